@@ -79,11 +79,11 @@ def rand_edges(rng, n, nlabels, ne, labels=None, dup=0.15):
         else: es.append((rng.randrange(n), rng.choice(labs), rng.randrange(n)))
     return es
 
-def rand_lts_case(rng, maxn=8, default=False):
-    n = rng.randint(1, maxn)
-    nl = rng.randint(1, 3)
+def rand_lts_case(rng, maxn=8, default=False, minn=1, maxlabels=3):
+    n = rng.randint(minn, maxn)
+    nl = rng.randint(1, maxlabels)
     labels = list(range(nl))
-    if rng.random() < 0.1: labels = rng.sample(range(5), nl)                 # label numbers with gaps
+    if rng.random() < 0.1: labels = rng.sample(range(maxlabels + 2), nl)     # label numbers with gaps
     dens = rng.choice([0.3, 0.8, 1.5, 2.5])
     es = rand_edges(rng, n, nl, rng.randint(0, int(dens * n) + 1), labels)
     if rng.random() < 0.3:                                                   # some pure sources / sinks / isolated states
